@@ -52,13 +52,14 @@ Elim(M, col, n) ==
        ELSE LET p  == CHOOSE r \in piv : \A q \in piv : r <= q
                 M1 == [M EXCEPT ![col] = M[p], ![p] = M[col]]
                 iv == Inv(M1[col][col])
-                prow == [j \in 1..(2*n) |-> Mul(M1[col][j], iv)]
-                M2 == [r \in 1..n |-> IF r = col THEN prow
+                prow == TLCEval([j \in 1..(2*n) |-> Mul(M1[col][j], iv)])
+                \* rows are forced (TLCEval): TLC's function constructors are lazy and unmemoised
+                M2 == TLCEval([r \in 1..n |-> IF r = col THEN prow
                                       ELSE LET f == M1[r][col] IN
-                                           IF f = 0 THEN M1[r] ELSE [j \in 1..(2*n) |-> M1[r][j] ^^ Mul(f, prow[j])]]
+                                           IF f = 0 THEN M1[r] ELSE TLCEval([j \in 1..(2*n) |-> M1[r][j] ^^ Mul(f, prow[j])])])
             IN Elim(M2, col + 1, n)
 Invert(A) == LET n == Len(A)
-                 aug == [i \in 1..n |-> [j \in 1..(2*n) |-> IF j <= n THEN A[i][j] ELSE IF j - n = i THEN 1 ELSE 0]]
+                 aug == TLCEval([i \in 1..n |-> TLCEval([j \in 1..(2*n) |-> IF j <= n THEN A[i][j] ELSE IF j - n = i THEN 1 ELSE 0])])
                  r == Elim(aug, 1, n)
              IN [ok |-> r.ok, inv |-> IF r.ok THEN [i \in 1..n |-> [j \in 1..n |-> r.m[i][n+j]]] ELSE <<>>]
 NonSingular(A) == Invert(A).ok
